@@ -21,17 +21,17 @@ const (
 )
 
 type Value struct {
-	K       Kind
-	B       bool
-	Lit     string // number literal
-	S       string // decoded string (lone surrogates -> U+FFFD)
-	Lone    bool   // string contained a lone surrogate escape
-	Raw     string // raw string token including quotes
-	A       []*Value
-	Keys    []string // decoded member names in document order
-	Vals    []*Value
-	KeyLone []bool // per member: the name contained a lone surrogate escape (nil if none)
-	Off, End int   // byte span [Off,End) of this value in the parsed text (set by Parse only)
+	K        Kind
+	B        bool
+	Lit      string // number literal
+	S        string // decoded string (lone surrogates -> U+FFFD)
+	Lone     bool   // string contained a lone surrogate escape
+	Raw      string // raw string token including quotes
+	A        []*Value
+	Keys     []string // decoded member names in document order
+	Vals     []*Value
+	KeyLone  []bool // per member: the name contained a lone surrogate escape (nil if none)
+	Off, End int    // byte span [Off,End) of this value in the parsed text (set by Parse only)
 }
 
 const MaxDepth = 10000
